@@ -131,10 +131,10 @@ fn class_static(c: &str) -> &'static str {
 fn expect_child(me: &std::path::Path, filename: &str, src: &str) -> (Result<Expected, String>, f64) {
     let mk = || {
         let mut cmd = Command::new(me);
-        cmd.args(["cli", "expect", filename, &util::hex(src.as_bytes())]);
+        cmd.args(["cli", "expect", filename, "-"]);
         cmd
     };
-    let o = run_child(mk, None, 3.0 * BASE_TIMEOUT_S);
+    let o = run_child(mk, Some(vec![util::hex(src.as_bytes()).into_bytes()]), 3.0 * BASE_TIMEOUT_S);
     if o.timed_out {
         return (Err("the library pipeline did not finish".to_string()), o.elapsed_s);
     }
@@ -281,8 +281,16 @@ fn alone(args: &[String]) -> i32 {
 
 /// `nvh cli expect <mode> <hex>`: what the library pipeline says the CLI prints (for replays).
 fn expect_cmd(args: &[String]) -> i32 {
-    let (Some(mode), Some(src)) =
-        (args.first(), args.get(1).and_then(|h| util::unhex(h)).and_then(|b| String::from_utf8(b).ok()))
+    let hexsrc = match args.get(1).map(String::as_str) {
+        Some("-") => {
+            // the hex text comes on stdin (a long script does not fit into one argument)
+            let mut t = String::new();
+            let _ = std::io::Read::read_to_string(&mut std::io::stdin(), &mut t);
+            Some(t.trim().to_string())
+        }
+        other => other.map(str::to_string),
+    };
+    let (Some(mode), Some(src)) = (args.first(), hexsrc.and_then(|h| util::unhex(&h)).and_then(|b| String::from_utf8(b).ok()))
     else {
         return 2;
     };
@@ -541,46 +549,114 @@ fn pool<T: Send>(jobs: usize, total: usize, f: impl Fn(usize) -> T + Sync) -> Ve
     results.into_iter().map(|m| m.into_inner().unwrap().unwrap()).collect()
 }
 
-/// Runs the command built by `mk`; a time-out must reproduce three times in a row before it is
-/// believed (a loaded machine can stall a child once).
-fn run_child(mk: impl Fn() -> Command, input: Option<Vec<u8>>, timeout_s: f64) -> ChildOut {
+fn pending_bytes(fd: i32) -> i32 {
+    let mut n: libc::c_int = 0;
+    let r = unsafe { libc::ioctl(fd, libc::FIONREAD, &mut n) };
+    if r < 0 { -1 } else { n }
+}
+
+fn write_all_fd(fd: i32, mut data: &[u8]) -> bool {
+    while !data.is_empty() {
+        let n = unsafe { libc::write(fd, data.as_ptr().cast(), data.len()) };
+        if n < 0 {
+            if std::io::Error::last_os_error().kind() == std::io::ErrorKind::Interrupted {
+                continue;
+            }
+            return false; // EPIPE: the reader is gone
+        }
+        data = &data[n as usize..];
+    }
+    true
+}
+
+/// Write the chunks to the pipe one `write(2)` at a time, each only after the previous one has been
+/// read completely (`FIONREAD == 0`) and a short pause — the way `harness/src/readline.rs` feeds its
+/// cases.  A write that fits the empty pipe becomes visible atomically, so every `read(2)` of the
+/// child sees (a buffer-bounded prefix of) exactly one chunk, however loaded the machine is.
+fn feed(fd: i32, chunks: &[Vec<u8>], alive: &mut dyn FnMut() -> bool) {
+    for (k, c) in chunks.iter().enumerate() {
+        if c.is_empty() {
+            continue;
+        }
+        let mut spins = 0u32;
+        loop {
+            match pending_bytes(fd) {
+                0 => break,
+                n if n < 0 => return,
+                _ => {}
+            }
+            spins += 1;
+            if spins % 32 == 0 && !alive() {
+                return;
+            }
+            std::thread::sleep(std::time::Duration::from_micros(if spins < 200 { 20 } else { 200 }));
+        }
+        if k > 0 {
+            std::thread::sleep(std::time::Duration::from_micros(300));
+        }
+        if !write_all_fd(fd, c) {
+            return;
+        }
+    }
+}
+
+/// Runs the command built by `mk`, feeding `input` (chunks, see `feed`) to its stdin; a time-out must
+/// reproduce three times in a row before it is believed (a loaded machine can stall a child once).
+fn run_child(mk: impl Fn() -> Command, input: Option<Vec<Vec<u8>>>, timeout_s: f64) -> ChildOut {
+    use std::io::Read;
+    use std::os::fd::AsRawFd;
     if TIMEOUTS.load(Ordering::SeqCst) >= MAX_TIMEOUTS {
         return ChildOut { stdout: Vec::new(), stderr: Vec::new(), code: None, timed_out: true, limit_s: 0.0, elapsed_s: 0.0 };
     }
     let mut last = None;
     for _attempt in 0..3 {
         let t0 = std::time::Instant::now();
+        let deadline = t0 + std::time::Duration::from_secs_f64(timeout_s);
         let mut cmd = mk();
         cmd.stdout(Stdio::piped()).stderr(Stdio::piped());
         cmd.stdin(if input.is_some() { Stdio::piped() } else { Stdio::null() });
         let mut child = cmd.spawn().expect("spawn child");
-        let pid = child.id();
-        if let Some(inp) = &input {
-            let mut si = child.stdin.take().unwrap();
-            let _ = si.write_all(inp);
+        let mut so = child.stdout.take().unwrap();
+        let mut se = child.stderr.take().unwrap();
+        let h1 = std::thread::spawn(move || {
+            let mut v = Vec::new();
+            let _ = so.read_to_end(&mut v);
+            v
+        });
+        let h2 = std::thread::spawn(move || {
+            let mut v = Vec::new();
+            let _ = se.read_to_end(&mut v);
+            v
+        });
+        if let Some(chunks) = &input {
+            let si = child.stdin.take().unwrap();
+            feed(si.as_raw_fd(), chunks, &mut || {
+                matches!(child.try_wait(), Ok(None)) && std::time::Instant::now() < deadline
+            });
             drop(si);
         }
-        let (tx, rx) = std::sync::mpsc::channel();
-        std::thread::spawn(move || {
-            let _ = tx.send(child.wait_with_output());
-        });
-        let (out, timed_out) = match rx.recv_timeout(std::time::Duration::from_secs_f64(timeout_s)) {
-            Ok(o) => (o, false),
-            Err(_) => {
-                unsafe { libc::kill(pid as i32, libc::SIGKILL) };
-                (rx.recv().unwrap(), true)
+        let mut nap = 100u64;
+        let status = loop {
+            if let Ok(Some(st)) = child.try_wait() {
+                break Some(st);
             }
+            if std::time::Instant::now() >= deadline {
+                let _ = child.kill();
+                let _ = child.wait();
+                break None;
+            }
+            std::thread::sleep(std::time::Duration::from_micros(nap));
+            nap = (nap * 2).min(2000);
         };
-        let out = out.expect("wait child");
         let r = ChildOut {
-            stdout: out.stdout,
-            stderr: out.stderr,
-            code: out.status.code(),
-            timed_out,
+            stdout: h1.join().unwrap_or_default(),
+            stderr: h2.join().unwrap_or_default(),
+            code: status.and_then(|st| st.code()),
+            timed_out: status.is_none(),
             limit_s: timeout_s,
             elapsed_s: t0.elapsed().as_secs_f64(),
         };
-        if !timed_out {
+        if !r.timed_out {
             return r;
         }
         last = Some(r);
@@ -589,12 +665,30 @@ fn run_child(mk: impl Fn() -> Command, input: Option<Vec<u8>>, timeout_s: f64) -
     last.unwrap()
 }
 
+/// `stdin` = the script in one write; `stdin@c1,c2,…` = cut at these byte offsets, one write per piece.
+fn stdin_chunks(mode: &str, src: &[u8]) -> Vec<Vec<u8>> {
+    let mut cuts: Vec<usize> = match mode.split_once('@') {
+        Some((_, c)) => c.split(',').filter_map(|x| x.parse().ok()).filter(|c| *c > 0 && *c < src.len()).collect(),
+        None => Vec::new(),
+    };
+    cuts.sort_unstable();
+    cuts.dedup();
+    let mut out = Vec::new();
+    let mut from = 0;
+    for c in cuts {
+        out.push(src[from..c].to_vec());
+        from = c;
+    }
+    out.push(src[from..].to_vec());
+    out
+}
+
 fn run_binary(naija: &str, mode: &str, src: &str, file_path: &str, timeout_s: f64) -> ChildOut {
     let mut input = None;
     match mode {
         "file" => std::fs::write(file_path, src).unwrap(),
         "eval" => {}
-        _ => input = Some(src.as_bytes().to_vec()),
+        _ => input = Some(stdin_chunks(mode, src.as_bytes())),
     }
     let mk = || {
         let mut cmd = Command::new(naija);
@@ -691,6 +785,7 @@ fn run(args: &[String]) -> i32 {
         "eval" => "<eval>".to_string(),
         _ => "<stdin>".to_string(),
     };
+    let _ = stdin_chunks; // `stdin@c1,c2,…` modes are cut in `run_binary`
     let mut lib_by_line: HashMap<usize, (Result<Expected, String>, f64)> = HashMap::new();
     let refs = pool(jobs, jobs_cli.len(), |k| expect_child(&me, &filename_of(&jobs_cli[k]), &jobs_cli[k].src));
     for (j, r) in jobs_cli.iter().zip(refs) {
@@ -797,7 +892,10 @@ fn run(args: &[String]) -> i32 {
                 let _ = (&src, &filename);
                 match lib {
                     Ok(e) => {
-                        bump_in(&mut stats, &format!("cli_{}_{}", mode, e.class));
+                        bump_in(&mut stats, &format!("cli_{}_{}", if mode.contains('@') { "stdinchunked" } else { *mode }, e.class));
+                        if e.stdout.windows(16).any(|w| w == b"Analysis skipped") {
+                            bump_in(&mut stats, "cli_analysis_skipped");
+                        }
                         let facts = format!("{} {} {}", e.p, e.re, e.rt);
                         if facts != format!("{p} {re} {rt}") {
                             eprintln!("ORACLE-FAIL {ln} facts in the request ({p} {re} {rt}) are not what the library pipeline computes now ({facts})");
@@ -985,6 +1083,107 @@ fn template(rng: &mut Rng) -> (&'static str, String) {
     }
 }
 
+/// Programs whose result depends on lexical binding: a function reads or assigns a variable of an
+/// enclosing block while a caller on the stack holds a local (or parameter) of the same name; recursion;
+/// a nested function capturing its parent's local.  With by-name lookup through the callers' scopes
+/// every one of them prints something else.
+fn binding_payload(rng: &mut Rng) -> (&'static str, String) {
+    let a = 1 + rng.below(9);
+    let b = 10 + rng.below(90);
+    match rng.below(5) {
+        0 => ("clash_read", format!(
+            "make x get {a}\ndo show() start\n    shout(x)\nend\ndo wrap() start\n    make x get {b}\n    show()\n    shout(x)\nend\nwrap()\n")),
+        1 => ("clash_recursion", format!(
+            "make depth get {b}\ndo peek() start\n  return depth\nend\ndo rec(k) start\n  make depth get k\n  if to say (k small pass 1) start\n    return peek()\n  end\n  return rec(k minus 1) add depth\nend\nshout(rec({a}))\n")),
+        2 => ("clash_assign", format!(
+            "make total get {a}\ndo bump() start\n  total get total add 1\nend\ndo work() start\n  make total get {b}\n  bump()\n  bump()\n  shout(total)\nend\nwork()\nshout(total)\n")),
+        3 => ("clash_param", format!(
+            "make name get \"outer{a}\"\ndo who() start\n  return name\nend\ndo greet(name) start\n  return who() add \"/\" add name\nend\nshout(greet(\"param{b}\"))\n")),
+        _ => ("clash_nested", format!(
+            "do mk() start\n  make v get \"mk{a}\"\n  do inner() start\n    return v\n  end\n  do via() start\n    make v get \"via{b}\"\n    return inner() add v\n  end\n  return via()\nend\nshout(mk())\n")),
+    }
+}
+
+/// A program past a default analysis cap (`src/analysis/limits.rs`): the checker then warns "Analysis
+/// skipped …" and hands the runtime no optimisation plan.  Cheapest cap: "summary events",
+/// `F * (F + 2 L + 2) > 16_777_216` for `F` functions and `L` locals — about 1400 unused
+/// four-parameter functions, 1000 eight-parameter ones, or 4100 without parameters.  The payload
+/// (before, after or between the padding) depends on lexical binding.
+fn overlimit(rng: &mut Rng) -> (String, String) {
+    let (plabel, payload) = binding_payload(rng);
+    let (kind, count, params): (&str, u64, &str) = match rng.below(3) {
+        0 => ("f1400x4", 1400 + rng.below(100), "a, b, c, d"),
+        1 => ("f1000x8", 1000 + rng.below(60), "a, b, c, d, e, f, g, h"),
+        _ => ("f4100x0", 4100 + rng.below(40), ""),
+    };
+    let mut pad1 = String::new();
+    let mut pad2 = String::new();
+    let split = match rng.below(3) {
+        0 => 0,
+        1 => count,
+        _ => count / 2,
+    };
+    for i in 0..count {
+        let t = if i < split { &mut pad1 } else { &mut pad2 };
+        t.push_str(&format!("do q{i}({params}) start\nend\n"));
+    }
+    (format!("over_{kind}_{plabel}"), format!("{pad1}{payload}{pad2}"))
+}
+
+/// `payload` padded with a trailing comment to exactly `size` bytes.
+fn sized(payload: &str, size: usize) -> String {
+    let mut s = payload.to_string();
+    if s.len() + 2 <= size {
+        s.push('#');
+        while s.len() + 1 < size {
+            s.push('p');
+        }
+        s.push('\n');
+    }
+    s
+}
+
+/// 1-3 cut offsets for feeding a script through stdin in several writes: between statements, inside a
+/// statement or token, inside a multi-byte character, and at the 8 KiB chunk size of `run_stdin` and
+/// its neighbours and multiples.
+fn cuts_for(rng: &mut Rng, src: &[u8]) -> Vec<usize> {
+    let n = src.len();
+    if n < 2 {
+        return Vec::new();
+    }
+    let newlines: Vec<usize> = (1..n).filter(|i| src[*i - 1] == b'\n').collect();
+    let inside_char: Vec<usize> = (1..n).filter(|i| src[*i] & 0xC0 == 0x80).collect();
+    let chunk_edges: Vec<usize> = [8191usize, 8192, 8193, 16383, 16384, 16385, 24576, 65536]
+        .iter()
+        .copied()
+        .filter(|c| *c < n)
+        .collect();
+    let mut cuts = Vec::new();
+    let k = 1 + rng.below(3);
+    for _ in 0..k {
+        let c = match rng.below(8) {
+            0 | 1 if !newlines.is_empty() => *rng.pick(&newlines),
+            2 if !inside_char.is_empty() => *rng.pick(&inside_char),
+            3 | 4 if !chunk_edges.is_empty() => *rng.pick(&chunk_edges),
+            5 => 1,
+            6 => n - 1,
+            _ => 1 + rng.below(n as u64 - 1) as usize,
+        };
+        cuts.push(c);
+    }
+    cuts.sort_unstable();
+    cuts.dedup();
+    cuts
+}
+
+fn cuts_mode(cuts: &[usize]) -> String {
+    if cuts.is_empty() {
+        "stdin".to_string()
+    } else {
+        format!("stdin@{}", cuts.iter().map(|c| c.to_string()).collect::<Vec<_>>().join(","))
+    }
+}
+
 fn generate(args: &[String]) -> i32 {
     let seed = util::opt_u64(args, "--seed", 1);
     let n = util::opt_u64(args, "--n", 150);
@@ -1002,9 +1201,23 @@ fn generate(args: &[String]) -> i32 {
         srcs.extend(file_programs());
     }
     while (srcs.len() as u64) < n {
-        let (label, src) = template(&mut rng);
+        let (label, src) = if rng.chance(1, 6) { binding_payload(&mut rng) } else { template(&mut rng) };
         srcs.push((label.to_string(), src));
     }
+    // scripts of exactly / around the 8 KiB read chunk of `run_stdin` and larger, and programs past an
+    // analysis cap (labels `sized_*`, `over_*`; never put into sequences: they would not fit into one
+    // argument of the child processes)
+    let nbig = util::opt_u64(args, "--big", 6);
+    for k in 0..nbig {
+        let (label, payload) = if rng.chance(1, 2) { binding_payload(&mut rng) } else { template(&mut rng) };
+        let size = [8192usize, 16384, 8191, 8193, 20000, 40000][(k % 6) as usize];
+        srcs.push((format!("sized_{size}_{label}"), sized(&payload, size)));
+    }
+    let nover = util::opt_u64(args, "--over", 6);
+    for _ in 0..nover {
+        srcs.push(overlimit(&mut rng));
+    }
+    let n = n + nbig + nover;
     let facts = pool(8, srcs.len(), |k| expect_child(&me, "<facts>", &srcs[k].1).0.ok().map(|e| (e.p, e.re, e.rt, e.class)));
     let pool: Vec<(String, String, Option<(usize, usize, usize, &'static str)>)> =
         srcs.into_iter().zip(facts).map(|((l, s), f)| (l, s, f)).collect();
@@ -1020,15 +1233,30 @@ fn generate(args: &[String]) -> i32 {
                 "x x x".to_string()
             }
         };
-        let _ = label;
+        if label.starts_with("over_") {
+            *dist.entry("overlimit".into()).or_insert(0) += 1;
+        }
+        let h = util::hex(src.as_bytes());
         for mode in ["file", "eval", "stdin"] {
-            writeln!(w, "cli {mode} {facts} {}", util::hex(src.as_bytes())).unwrap();
+            writeln!(w, "cli {mode} {facts} {h}").unwrap();
+        }
+        // stdin again, in several writes
+        let big = label.starts_with("sized_") || label.starts_with("over_");
+        for _ in 0..(if big { 3 } else { 1 }) {
+            let cuts = cuts_for(&mut rng, src.as_bytes());
+            if !cuts.is_empty() {
+                writeln!(w, "cli {} {facts} {h}", cuts_mode(&cuts)).unwrap();
+            }
         }
     }
     writeln!(w, "proto cli").unwrap();
     // sequences: 2-6 programs, each sequence forced to contain a failing and a loop-heavy program when possible
     let by_class = |c: &str| -> Vec<usize> {
-        pool.iter().enumerate().filter(|(_, p)| p.2.is_some_and(|f| f.3 == c)).map(|(i, _)| i).collect()
+        pool.iter()
+            .enumerate()
+            .filter(|(_, p)| p.2.is_some_and(|f| f.3 == c) && p.1.len() < 6000)
+            .map(|(i, _)| i)
+            .collect()
     };
     let oks = by_class("ok");
     let fails: Vec<usize> = ["parse", "static", "rt"].iter().flat_map(|c| by_class(c)).collect();
